@@ -383,11 +383,16 @@ func (w *world) seek(prefix, start []byte, back bool) {
 		})
 		return "seek " + showKVs(got, 1)
 	})
-	// reference = MemoryStore.seek (memory_store.go:100-142) on the same contents: forwards the keys
-	// with suffix >= Start, backwards the keys with suffix <= Start or extending Start.
-	var want []string
+	// reference = the real MemoryStore.Seek (memory_store.go:100-142) on the same contents and the same
+	// SeekRange: TrieStore stands in for the live store in historic invocations.
+	ms := storage.NewMemoryStore()
+	stor := map[string][]byte{}
 	var common []byte
 	first := true
+	for k, v := range w.ref {
+		stor[string(append([]byte{byte(storage.STStorage)}, k...))] = v
+	}
+	_ = ms.PutChangeSet(nil, stor)
 	for _, k := range sortedKeys(w.ref) {
 		if !strings.HasPrefix(k, string(prefix)) {
 			continue
@@ -398,19 +403,12 @@ func (w *world) seek(prefix, start []byte, back bool) {
 		} else {
 			common = lcpB(common, toNib([]byte(suf)))
 		}
-		if len(start) != 0 {
-			c := strings.Compare(suf, string(start))
-			if (!back && c < 0) || (back && c > 0 && !strings.HasPrefix(suf, string(start))) {
-				continue
-			}
-		}
-		want = append(want, k)
 	}
-	if back {
-		for i, j := 0, len(want)-1; i < j; i, j = i+1, j-1 {
-			want[i], want[j] = want[j], want[i]
-		}
-	}
+	var want []string
+	ms.Seek(storage.SeekRange{Prefix: append([]byte{byte(storage.STStorage)}, prefix...), Start: start, Backwards: back}, func(k, v []byte) bool {
+		want = append(want, string(k[1:]))
+		return true
+	})
 	var gotKeys []string
 	for _, kv := range got {
 		k := string(kv.Key[1:])
